@@ -103,7 +103,11 @@ N == Len(st.nodes)
 Step(name, n, x, res) == st' = res.st /\ last' = [a |-> name, n |-> n, x |-> x, ret |-> res.ret]
 \* (an unpickled statement carries its own copies of the Table objects: extending it with expressions over the program's tables
 \*  would mix two tables named alike - not a meaningful program, excluded)
-Derive == \E p \in 1..N, m \in Methods : N < MaxNodes /\ st.nodes[p].via # "pickle" /\ Count(Descr(st.nodes, p), m) < MaxRepeat /\ Step("Derive", p, m, DoDerive(st, p, m))
+\* Query refuses filter()/join()/having() once LIMIT or OFFSET is set (orm/query.py _no_limit_offset): the call raises and nothing exists
+\* afterwards that did not exist before
+Refused(d, m) == Kind = "query" /\ m \in {"where", "wherein", "join", "outerjoin", "having"} /\ Count(d, "limit") + Count(d, "offset") > 0
+Derive == \E p \in 1..N, m \in Methods : N < MaxNodes /\ st.nodes[p].via # "pickle" /\ Count(Descr(st.nodes, p), m) < MaxRepeat
+             /\ Step("Derive", p, m, IF Refused(Descr(st.nodes, p), m) THEN R(st, "InvalidRequestError") ELSE DoDerive(st, p, m))
 Copy == \E p \in 1..N, how \in Hows : N < MaxNodes /\ st.nodes[p].via \notin Hows /\ Step("Copy", p, how, DoCopy(st, p, how))
 \* the FIRST compilation of a node is an action (which dialect goes first, and when, relative to derivations and copies, is the
 \* hazard); every later compilation of every compiled node on every dialect is performed by the replay after each step
@@ -115,7 +119,7 @@ Spec == Init /\ [][Next]_vars
 View == st
 Depth == TLCGet("level") <= MaxDepth
 Compact(s) == [i \in 1..Len(s.nodes) |-> <<s.nodes[i].par, s.nodes[i].via, s.nodes[i].m, s.nodes[i].comp>>]
-Slim(l) == [a |-> l.a, n |-> l.n, x |-> l.x]
+Slim(l) == [a |-> l.a, n |-> l.n, x |-> l.x, r |-> IF l.a = "Compile" THEN "ok" ELSE l.ret]
 Emit == PrintT(ToJson([from |-> Compact(st), act |-> Slim(last'), to |-> Compact(st')]))
 InitEmit == Init /\ PrintT(ToJson([init |-> Compact(st)]))
 
@@ -130,6 +134,7 @@ Deterministic == \A n \in 1..N : Reads(st, n) = Meaning(Descr(st.nodes, n))
 CompileReturnsMeaning == last.a = "Compile" => last.ret = Meaning(Descr(st.nodes, last.n))
 \* clause 3: compilation modifies nothing but memoized data
 CompileInert == [][last'.a = "Compile" => (st'.heap = st.heap /\ \A n \in 1..N : st'.nodes[n].cells = st.nodes[n].cells) /\ Len(st'.nodes) = N]_vars
+RefusedChangesNothing == [][(last'.a = "Derive" /\ last'.ret = "InvalidRequestError") => st' = st]_vars
 \* shallow copies never write through shared cells: every cell is written exactly once (when allocated)
 HeapAppendOnly == [][\A i \in 1..Len(st.heap) : st'.heap[i] = st.heap[i]]_vars
 =============================================================================
